@@ -48,6 +48,8 @@ pub struct Scenario {
     pub check_step_m: f64,
     pub check_step_rad: f64,
     pub max_cost: f64,
+    /// transition coefficients handed to the planner (default weights or a random set)
+    pub coeffs: [f64; 6],
     pub depth: usize,
     pub include_interp: bool,
     /// stroke / parking poses handed to the planner with the negated quaternion (same rotation)
@@ -159,6 +161,9 @@ pub fn gen_scenario(rng: &mut Rng, idx: u64, for_schedules: bool) -> Option<Scen
         check_step_rad: if sparse { rng.range(1.0, 2.0) } else { rng.logu(0.02, 0.2) },
         max_cost: if sparse { rng.range(25.0, 45.0f64).to_radians() } else { rng.range(1.0, 10.0f64).to_radians() },
         depth: rng.usize(9),
+        // every other free-form scenario configures its own weights (heavier or lighter than the defaults);
+        // schedule scenarios keep the defaults (their expected outcome is derived for those)
+        coeffs: if !for_schedules && rng.bool(0.5) { std::array::from_fn(|_| rng.logu(0.3, 4.0)) } else { DEFAULT_TRANSITION_COSTS },
         include_interp: rng.bool(0.6),
         // a quarter of the scenarios hands some poses over as -q instead of q
         negate: { let flip = rng.bool(0.25); (0..n_steps + 1).map(|_| flip && rng.bool(0.5)).collect() },
@@ -169,7 +174,7 @@ fn scenario_json(s: &Scenario) -> serde_json::Value {
     let pj = |f: &Fr| json!({"r": f.r, "p": f.p});
     json!({"cell": s.cell.json(), "from": jf(&s.from), "land": pj(&s.land), "steps": s.steps.iter().map(pj).collect::<Vec<_>>(), "park": pj(&s.park),
            "seeds": s.seeds.iter().map(|q| jf(q)).collect::<Vec<_>>(), "layout": s.layout, "start_class": s.start_class,
-           "check_step_m": s.check_step_m, "check_step_rad": s.check_step_rad, "max_transition_cost": s.max_cost, "linear_recursion_depth": s.depth, "include_linear_interpolation": s.include_interp, "poses_given_with_negated_quaternion": s.negate})
+           "check_step_m": s.check_step_m, "check_step_rad": s.check_step_rad, "max_transition_cost": s.max_cost, "transition_coefficients": jf(&s.coeffs), "linear_recursion_depth": s.depth, "include_linear_interpolation": s.include_interp, "poses_given_with_negated_quaternion": s.negate})
 }
 
 pub struct PlanRun {
@@ -214,7 +219,7 @@ pub fn run_plan(s: &Scenario, pool: Option<&rayon::ThreadPool>, delay_seed: Opti
             check_step_m: s.check_step_m,
             check_step_rad: s.check_step_rad,
             max_transition_cost: s.max_cost,
-            transition_coefficients: DEFAULT_TRANSITION_COSTS,
+            transition_coefficients: s.coeffs,
             linear_recursion_depth: s.depth,
             rrt: RRTPlanner { step_size_joint_space: 3.0f64.to_radians(), max_try: if s.check_step_m >= 0.3 { 4000 } else { 600 }, debug: false },
             include_linear_interpolation: s.include_interp,
@@ -386,7 +391,10 @@ pub fn check_plan(mon: &mut Mon, s: &Scenario, robot: &KinematicsWithShape, path
         // 4. transition cost between consecutive Cartesian waypoints (only meaningful with interpolation included)
         if s.include_interp {
             let p = &path[k - 1].joints;
-            let c: f64 = (0..6).map(|j| (w.joints[j] - p[j]).abs() * DEFAULT_TRANSITION_COSTS[j]).sum();
+            let c: f64 = (0..6).map(|j| (w.joints[j] - p[j]).abs() * s.coeffs[j]).sum();
+            if s.coeffs != DEFAULT_TRANSITION_COSTS {
+                mon.count("transitions_checked_with_configured_weights");
+            }
             mon.max("transition_cost_over_limit", c / s.max_cost);
             if !(c <= s.max_cost + 1e-12) {
                 ok = false;
@@ -489,7 +497,7 @@ fn schedules(idx: u64, rng: &mut Rng, mon: &mut Mon, s: &Scenario) {
         return;
     }
     let clone_with_from = |from: [f64; 6]| Scenario { cell: s.cell.clone(), from, land: s.land, steps: s.steps.clone(), park: s.park, seeds: s.seeds.clone(), layout: s.layout, start_class: s.start_class,
-        check_step_m: s.check_step_m, check_step_rad: s.check_step_rad, max_cost: s.max_cost, depth: s.depth, include_interp: s.include_interp, negate: s.negate.clone() };
+        check_step_m: s.check_step_m, check_step_rad: s.check_step_rad, max_cost: s.max_cost, coeffs: s.coeffs, depth: s.depth, include_interp: s.include_interp, negate: s.negate.clone() };
     let pool1 = rayon::ThreadPoolBuilder::new().num_threads(1).build().unwrap();
     // 1. classify the landing solutions. Started AT solution S_i on a one-thread pool, S_i is probed
     //    first and its onboarding is trivial, so "Ok with LAND == S_i" means: the Cartesian part of
